@@ -67,6 +67,7 @@ static std::string status_line(const Grid& g) {
   // divisor of the first point of gen_sys, when the generators are up to date (read from the dump:
   // no observer is called, so the lazy state is not disturbed)
   std::string div = "?";
+  int zero_lines = 0, zero_params = 0;
   size_t gpos = all.find("gen_sys (up-to-date)");
   if (gpos != std::string::npos) {
     size_t q = gpos;
@@ -75,13 +76,26 @@ static std::string status_line(const Grid& g) {
       if (r == std::string::npos) break;
       size_t e = all.find('\n', r);
       std::string row = all.substr(r, e - r);
-      if (!row.empty() && row.back() == 'P') {
-        std::istringstream is(row); std::string w, sz, d; is >> w >> sz >> d; div = d; break;
+      if (!row.empty() && row.back() == 'P' && div == "?") {
+        std::istringstream is(row); std::string w, sz, d; is >> w >> sz >> d; div = d;
+      }
+      if (!row.empty() && row.back() == 'L') {
+        std::istringstream is(row); std::string w; is >> w >> w; bool allz = true;
+        while (is >> w) { if (w == "L") break; if (w != "0") allz = false; }
+        if (allz) ++zero_lines;
+      }
+      if (!row.empty() && row.back() == 'Q') {
+        // "size N 0 c.. d Q": all coordinates zero (the last number is the divisor)
+        std::istringstream is(row); std::string w; is >> w >> w; std::vector<std::string> v;
+        while (is >> w) { if (w == "Q") break; v.push_back(w); }
+        bool allz = true;
+        for (size_t i = 0; i + 1 < v.size(); ++i) if (v[i] != "0") allz = false;
+        if (allz) ++zero_params;
       }
       q = e;
     }
   }
-  return o + " div=" + div;
+  return o + " div=" + div + " zl=" + std::to_string(zero_lines) + " zq=" + std::to_string(zero_params);
 }
 
 // ---------------------------------------------------------------------------------- random data
@@ -97,7 +111,7 @@ struct Gen {
     Coefficient c = 1; c <<= 40; c += (long)R.range(-5, 5); if (R.chance(1, 2)) c = -c; return c;
   }
   Coefficient modulus() {
-    static const long ms[] = {0, 0, 1, 1, 2, 2, 3, 4, 5, 6, 7, 12, 30, 1000003};
+    static const long ms[] = {0, 1, 1, 2, 2, 3, 3, 4, 5, 6, 7, 12, 30, 1000003};
     unsigned k = R.below(100);
     if (k < 92) return Coefficient(ms[R.below(sizeof(ms) / sizeof(ms[0]))]);
     if (k < 96) { Coefficient c = 1; c <<= 33; return c; }
@@ -186,7 +200,7 @@ struct Hist {
     if (k < 1) { op(s, "new_univ " + std::to_string(n) + " # api=Grid(n,UNIVERSE)"); slot[s].reset(new Grid(n)); }
     else if (k < 2) { op(s, "new_empty " + std::to_string(n) + " # api=Grid(n,EMPTY)"); slot[s].reset(new Grid(n, EMPTY)); }
     else if (k < 6) {
-      Congruence_System cs = G.cgs(n, n + 2);
+      Congruence_System cs = G.cgs(n, n + 1);
       op(s, "new_cgs " + std::to_string(n) + " " + cgs_str(cs, n) + " # api=Grid(cgs)");
       guarded([&] { slot[s].reset(new Grid(cs)); });
     }
@@ -400,12 +414,15 @@ struct Hist {
 
   void run(long id, int len) {
     J.line("hist " + std::to_string(id));
-    dimension_type n = R.below(5);
-    if (R.chance(1, 12)) n = 0;
+    static const dimension_type dims[] = {0, 1, 1, 2, 2, 2, 3, 3, 3, 4, 4};
+    dimension_type n = dims[R.below(sizeof(dims) / sizeof(dims[0]))];
     for (int s = 0; s < 2; ++s) fresh(s, n);
     for (int step = 0; step < len; ++step) {
       std::vector<int> live; for (int s = 0; s < NSLOT; ++s) if (slot[s]) live.push_back(s);
       int s = live[R.below(live.size())];
+      // keep the pool lively: a slot that is empty (tested on a copy, the slot itself is not touched)
+      // is usually rebuilt instead of being mutated further
+      if (R.chance(2, 3)) { Grid tmp(*slot[s]); if (tmp.is_empty()) fresh(s, dim(s)); }
       mutate(s);
       // observers chosen to drive the lazy state: none / a query / a description
       unsigned o = R.below(10);
